@@ -370,6 +370,7 @@ func (gb *gcpBalancer) getConnectionPoolSize() int {
 
 // newSubConn creates a new SubConn using cc.NewSubConn and initialize the subConnRef
 // if none of the subconns are in the Connecting state.
+// Must be called holding pickMu.
 func (gb *gcpBalancer) newSubConn() {
 	gb.mu.Lock()
 	defer gb.mu.Unlock()
@@ -382,8 +383,15 @@ func (gb *gcpBalancer) newSubConn() {
 
 	// there are chances the newly created subconns are still connecting,
 	// we can wait on those new subconns.
-	for _, scState := range gb.scStates {
+	// The picker found all ready subconns of its own list busy. A subconn that became
+	// ready after that picker was built is not on the list: if it has capacity, the
+	// call can use it (it gets there with the next picker) and the pool need not grow.
+	wm := int64(gb.cfg.GetChannelPool().GetMaxConcurrentStreamsLowWatermark())
+	for sc, scState := range gb.scStates {
 		if scState == connectivity.Connecting || scState == connectivity.Idle {
+			return
+		}
+		if ref, ok := gb.scRefs[sc]; ok && scState == connectivity.Ready && int64(ref.getStreamsCnt()) < wm {
 			return
 		}
 	}
@@ -449,7 +457,10 @@ func (gb *gcpBalancer) getSubConnRoundRobin(ctx context.Context) *subConnRef {
 	gb.mu.RLock()
 	if len(gb.scRefList) == 0 {
 		gb.mu.RUnlock()
+		// newSubConn looks at the stream counters: like the picker, under pickMu.
+		gb.pickMu.Lock()
 		gb.newSubConn()
+		gb.pickMu.Unlock()
 		gb.mu.RLock()
 	}
 	scRef := gb.scRefList[atomic.AddUint64(&gb.rrRefId, 1)%uint64(len(gb.scRefList))]
